@@ -10,6 +10,15 @@ static REAL_N: AtomicI64 = AtomicI64::new(0);
 static MONO_S: AtomicI64 = AtomicI64::new(0);
 static MONO_N: AtomicI64 = AtomicI64::new(0);
 static READS: AtomicU64 = AtomicU64::new(0);
+/// When non-zero only this thread (gettid) sees the virtual clock; every other thread gets real time.
+static ONLY_TID: AtomicI64 = AtomicI64::new(0);
+
+pub fn gettid() -> i64 {
+    unsafe { libc::syscall(libc::SYS_gettid) as i64 }
+}
+pub fn only_thread(tid: i64) {
+    ONLY_TID.store(tid, SeqCst);
+}
 
 /// Optional callback run on every virtual read *before* the value is returned
 /// (argument: clock id). Lets a script advance time or park the reading thread.
@@ -67,6 +76,10 @@ fn is_mono(clk: libc::clockid_t) -> bool {
 #[no_mangle]
 pub unsafe extern "C" fn clock_gettime(clk: libc::clockid_t, ts: *mut libc::timespec) -> libc::c_int {
     if !ON.load(SeqCst) {
+        return libc::syscall(libc::SYS_clock_gettime, clk as libc::c_long, ts) as libc::c_int;
+    }
+    let only = ONLY_TID.load(SeqCst);
+    if only != 0 && only != gettid() {
         return libc::syscall(libc::SYS_clock_gettime, clk as libc::c_long, ts) as libc::c_int;
     }
     READS.fetch_add(1, SeqCst);
